@@ -1,3 +1,4 @@
 import Cgm.Lemmas.AuditCmd
 import Cgm.Props.C13
+import Cgm.Props.C13b
 #audit_namespace Cg.C13
